@@ -8,6 +8,7 @@ import (
 	"io"
 	"os"
 	"os/exec"
+	"path/filepath"
 	"sort"
 	"strings"
 	"sync"
@@ -58,11 +59,20 @@ type WorkerSpec struct {
 	RemoteFrontier bool
 }
 
+// workerSeen: the state keys a worker process has expanded so far, across the subtrees it was
+// handed. A state pruned here was expanded with at least the same remaining budget below another
+// prefix this process explored (or handed back to the coordinator as open prefixes, which are
+// explored later): unless the run is cut short - and then it is reported as not exhaustive - its
+// futures are covered.
+var workerSeen = new(sync.Map)
+var workerShm *shmSet
+var shmSeq atomic.Int64
+
 // subtree explores every execution below prefix sequentially.
 func subtree(name string, cfg Config, param any, body func(*Ctx), req shardReq, trace func([]int)) *shardResp {
 	resp := &shardResp{Notes: map[string]int64{}}
 	outs, nontr := map[uint64]struct{}{}, map[uint64]struct{}{}
-	e := &explorer{cfg: cfg, body: body, param: param, name: name, outcomes: newHashSet(), nontr: newHashSet()}
+	e := &explorer{cfg: cfg, body: body, param: param, name: name, outcomes: newHashSet(), nontr: newHashSet(), seenExt: workerSeen, seenShm: workerShm}
 	stack := []item{{prefix: req.Prefix}}
 	for len(stack) > 0 {
 		it := stack[len(stack)-1]
@@ -165,6 +175,19 @@ func ServeWorker(name string, cfg Config, param any, body func(*Ctx)) {
 	in := bufio.NewReaderSize(os.Stdin, 1<<20)
 	out := bufio.NewWriter(os.Stdout)
 	var served int64
+	// a worker that holds too much live memory (code under test that leaks per execution) is
+	// replaced after the subtree it is working on
+	if cfg.WorkerHeapCap > 0 {
+		StartMemoryGuard(cfg.WorkerHeapCap, false)
+	}
+	if p := os.Getenv("MC_SEEN_SHM"); p != "" && cfg.SharedSeen > 0 {
+		s, err := openShmSet(p, cfg.SharedSeen, false)
+		if err != nil {
+			fmt.Fprintf(os.Stderr, "worker: shared state table: %v\n", err)
+			os.Exit(3)
+		}
+		workerShm = s
+	}
 	if !cfg.NoDetCheck && os.Getenv("MC_DETCHECK") == "1" {
 		e := &explorer{cfg: cfg, body: body, param: param, name: name, outcomes: newHashSet(), nontr: newHashSet()}
 		a, b := e.runOne(nil, false), e.runOne(nil, false)
@@ -195,7 +218,7 @@ func ServeWorker(name string, cfg Config, param any, body func(*Ctx)) {
 		}
 		resp := subtree(name, cfg, param, body, req, trace)
 		served += resp.Execs
-		if cfg.RecycleAfter > 0 && served >= cfg.RecycleAfter {
+		if (cfg.RecycleAfter > 0 && served >= cfg.RecycleAfter) || OverMemory.Load() {
 			resp.Recycle = true
 		}
 		b, _ := json.Marshal(resp)
@@ -298,6 +321,19 @@ func ExploreSharded(name string, cfg Config, spec WorkerSpec, param any, body fu
 	outs, nontr := map[uint64]struct{}{}, map[uint64]struct{}{}
 	timedOut := false
 	var internal []string
+	var shm *shmSet
+	if cfg.SharedSeen > 0 {
+		dir := os.Getenv("VERIF_TMP")
+		if dir == "" {
+			dir = "/dev/shm"
+		}
+		path := filepath.Join(dir, fmt.Sprintf("verif-seen-%d-%d", os.Getpid(), shmSeq.Add(1)))
+		if s, err := openShmSet(path, cfg.SharedSeen, true); err == nil {
+			shm = s
+			spec.Env = append(append([]string{}, spec.Env...), "MC_SEEN_SHM="+path)
+			defer os.Remove(path)
+		}
+	}
 
 	merge := func(r *shardResp) {
 		res.Execs += r.Execs
@@ -511,6 +547,9 @@ func ExploreSharded(name string, cfg Config, spec WorkerSpec, param any, body fu
 	}
 	res.Outcomes = len(outs)
 	res.Nontrivial = len(nontr)
+	if shm != nil {
+		res.States = shm.len()
+	}
 	res.Exhaustive = !timedOut && len(res.Violations) < cfg.MaxViolations
 	res.WallS = Wall() - start
 	sort.Slice(res.Violations, func(i, j int) bool { return len(res.Violations[i].Choices) < len(res.Violations[j].Choices) })
